@@ -149,8 +149,8 @@ class Signal(np.lib.mixins.NDArrayOperatorsMixin):
     def __len__(self):
         return len(self.data)
 
-    def __array__(self):
-        return np.asanyarray(self.data)
+    def __array__(self, dtype=None, copy=None):
+        return np.array(np.asanyarray(self.data), dtype=dtype, copy=copy, subok=True)
 
     def _time_slice(self, index):
         s = slice(*index.indices(self.shape[0]))
